@@ -67,6 +67,8 @@ def gen(f):
                 k = cond.rindex("; ")
                 init, cond = cond[:k + 2], cond[k + 2:]
             add("neg", "%s%s %s!(%s) {" % (m.group(1), m.group(2), init, cond))
+            add("iffalse", "%s%s %sfalse && (%s) {" % (m.group(1), m.group(2), init, cond))
+            add("iftrue", "%s%s %strue || (%s) {" % (m.group(1), m.group(2), init, cond))
             if " && " in cond:
                 add("and2or", "%s%s %s%s {" % (m.group(1), m.group(2), init, cond.replace(" && ", " || ", 1)))
             if " || " in cond:
@@ -86,6 +88,25 @@ def gen(f):
                     else:
                         continue
                     add("flip%d" % (pi // 2), "%s%s %s%s {" % (m.group(1), m.group(2), init, "".join(q)))
+            continue
+        m = re.match(r"^(\t+)for (.*) := range (.+) \{$", ln)
+        if m and not m.group(3).endswith(")") or (m and re.match(r"^[\w.\[\]()]+$", m.group(3))):
+            add("skipfirst", "%sfor %s := range (%s)[1:] {" % (m.group(1), m.group(2), m.group(3)))
+            add("skiplast", "%sfor %s := range (%s)[:len(%s)-1] {" % (m.group(1), m.group(2), m.group(3), m.group(3)))
+            continue
+        m = re.match(r"^(\t+)for (\w+) := 0; (\w+) < (.+); (\w+)\+\+ \{$", ln)
+        if m:
+            add("from1", "%sfor %s := 1; %s < %s; %s++ {" % (m.group(1), m.group(2), m.group(3), m.group(4), m.group(5)))
+            add("tolast", "%sfor %s := 0; %s < %s-1; %s++ {" % (m.group(1), m.group(2), m.group(3), m.group(4), m.group(5)))
+            continue
+        if st == "defer func() {":
+            # delete the whole deferred closure: find its end
+            j = i + 1
+            while j < len(lines) and not (lines[j].startswith(ind + "}(") and lines[j].strip().startswith("}(")):
+                j += 1
+            if j < len(lines):
+                ms.append(dict(id="%s:%d:deldefer" % (f, i + 1), file=f, line=i + 1, op="deldefer", old=ln, new=ind + "_ = func() {", func=fn,
+                               extra={"line": j + 1, "old": lines[j], "new": ind + "}"}))
             continue
         if st == "break":
             add("brk2cont", ind + "continue")
@@ -137,6 +158,9 @@ def run(m):
         lines = open(p).read().split("\n")
         assert lines[m["line"] - 1] == m["old"]
         lines[m["line"] - 1] = m["new"]
+        if m.get("extra"):
+            assert lines[m["extra"]["line"] - 1] == m["extra"]["old"]
+            lines[m["extra"]["line"] - 1] = m["extra"]["new"]
         open(p, "w").write("\n".join(lines))
         b = subprocess.run(["go", "build", "./..."], cwd=d, env=ENV, capture_output=True, text=True)
         if b.returncode != 0:
@@ -173,6 +197,7 @@ def main():
     out = os.path.join(VERIF, "notes/automut.jsonl")
     jobs = 10
     only = None
+    ops = None
     a = sys.argv[1:]
     while a:
         if a[0] == "--files":
@@ -181,10 +206,14 @@ def main():
             out = a[1]; a = a[2:]
         elif a[0] == "--jobs":
             jobs = int(a[1]); a = a[2:]
+        elif a[0] == "--ops":
+            ops = set(a[1].split(",")); a = a[2:]
         elif a[0] == "--only":
             only = a[1]; a = a[2:]
         elif a[0] == "--list":
             ms = [m for f in fs for m in gen(f)]
+            if ops:
+                ms = [m for m in ms if m["op"] in ops]
             for m in ms:
                 print(m["id"], "|", m["new"].strip())
             print(len(ms))
@@ -193,6 +222,8 @@ def main():
             a = a[1:]
     subprocess.run("cd /verif/checker && go build -o /verif/bin/digcheck ./cmd/digcheck", shell=True, env=ENV, check=True)
     ms = [m for f in fs for m in gen(f)]
+    if ops:
+        ms = [m for m in ms if m["op"] in ops]
     if only:
         ids = set(open(only).read().split())
         ms = [m for m in ms if m["id"] in ids]
